@@ -90,6 +90,8 @@ def stream_to_bytes(items, key, world):
         if t == 'http':
             b = http_reply(it, key, world)
             world.rec({"k": "srv", "i": i, "it": "http", "v": it.get('v', 'ok'), "len": len(b)})
+            if i == 0:
+                world.http_len = len(b)
         elif t == 'f':
             b, payload = frame_bytes(it, world)
             if it['op'] in (1, 2):
@@ -99,6 +101,8 @@ def stream_to_bytes(items, key, world):
             world.rec({"k": "srv", "i": i, "it": "f", "op": it['op'], "fin": it.get('fin', 1), "rsv1": it.get('rsv1', 0),
                        "rsv2": it.get('rsv2', 0), "rsv3": it.get('rsv3', 0), "mask": bool(it.get('mask', False)),
                        "pl": codec.pv(payload), "acc": codec.pv(acc), "len": len(b),
+                       "off": len(out) + len(b) - len(payload) - getattr(world, 'http_len', 0),
+                       "end": len(out) + len(b) - getattr(world, 'http_len', 0),
                        "ann": "huge" if str(it.get('announce', '')).startswith('huge') else "len"})
         elif t == 'raw':
             b = bytes(it['b'])
